@@ -9,7 +9,7 @@ inductive Tok where
 def isSep (c : Char) : Bool := c == '/'
 
 /-- parse a class body after '[' ; returns token and rest, or none on error -/
-partial def parseClass (cs : List Char) : Option (Tok × List Char) :=
+def parseClass (cs : List Char) : Option (Tok × List Char) :=
   let (neg, cs) := match cs with
     | '!' :: r => (true, r) | '^' :: r => (true, r) | r => (false, r)
   let rec go (first : Bool) (inRange : Bool) (rs : List (Char × Char)) (cs : List Char) : Option (Tok × List Char) :=
@@ -34,49 +34,52 @@ partial def parseClass (cs : List Char) : Option (Tok × List Char) :=
       else go false false ((c, c) :: rs) r
   go true false [] cs
 
-/-- globset Parser (no alternates), backslash_escape = true -/
-partial def parse (cs : List Char) : Option (List Tok) :=
-  let rec go (prev : Option Char) (acc : List Tok) (cs : List Char) : Option (List Tok) :=
+/-- globset Parser (no alternates), backslash_escape = true. The loop takes fuel; `parse` gives it `length + 1`, which always
+    suffices (every step consumes a character or ends the input: `parseGo_fuel`, Wx/Glob/GlobThm.lean) -/
+def parseGo : Nat → Option Char → List Tok → List Char → Option (List Tok)
+  | 0, _, _, _ => none
+  | fuel + 1, prev, acc, cs =>
     match cs with
     | [] => some acc.reverse
-    | '?' :: r => go (some '?') (.any :: acc) r
+    | '?' :: r => parseGo fuel (some '?') (.any :: acc) r
     | '[' :: r => match parseClass r with
-        | some (t, r') => go (some ']') (t :: acc) r'
+        | some (t, r') => parseGo fuel (some ']') (t :: acc) r'
         | none => none
     | '\\' :: r => match r with
         | [] => none
-        | c :: r' => go (some c) (.lit c :: acc) r'
+        | c :: r' => parseGo fuel (some c) (.lit c :: acc) r'
     | '*' :: r =>
       match r with
       | '*' :: r2 =>
         -- double star
         if acc.isEmpty then
           match r2 with
-          | [] => go (some '*') (.recPrefix :: acc) []
-          | c :: r3 => if isSep c then go (some c) (.recPrefix :: acc) r3
-                       else go (some '*') (.star :: .star :: acc) r2
+          | [] => parseGo fuel (some '*') (.recPrefix :: acc) []
+          | c :: r3 => if isSep c then parseGo fuel (some c) (.recPrefix :: acc) r3
+                       else parseGo fuel (some '*') (.star :: .star :: acc) r2
         else if !(prev.map isSep |>.getD false) then
-          go (some '*') (.star :: .star :: acc) r2
+          parseGo fuel (some '*') (.star :: .star :: acc) r2
         else
           match r2 with
           | [] =>
             -- suffix
             match acc with
-            | .recPrefix :: t => go (some '*') (.recPrefix :: t) []
-            | .recSuffix :: t => go (some '*') (.recSuffix :: t) []
-            | _ :: t => go (some '*') (.recSuffix :: t) []
+            | .recPrefix :: t => parseGo fuel (some '*') (.recPrefix :: t) []
+            | .recSuffix :: t => parseGo fuel (some '*') (.recSuffix :: t) []
+            | _ :: t => parseGo fuel (some '*') (.recSuffix :: t) []
             | [] => none
           | c :: r3 =>
             if isSep c then
               match acc with
-              | .recPrefix :: t => go (some c) (.recPrefix :: t) r3
-              | .recSuffix :: t => go (some c) (.recSuffix :: t) r3
-              | _ :: t => go (some c) (.recMid :: t) r3
+              | .recPrefix :: t => parseGo fuel (some c) (.recPrefix :: t) r3
+              | .recSuffix :: t => parseGo fuel (some c) (.recSuffix :: t) r3
+              | _ :: t => parseGo fuel (some c) (.recMid :: t) r3
               | [] => none
-            else go (some '*') (.star :: .star :: acc) r2
-      | _ => go (some '*') (.star :: acc) r
-    | c :: r => go (some c) (.lit c :: acc) r
-  go none [] cs
+            else parseGo fuel (some '*') (.star :: .star :: acc) r2
+      | _ => parseGo fuel (some '*') (.star :: acc) r
+    | c :: r => parseGo fuel (some c) (.lit c :: acc) r
+
+def parse (cs : List Char) : Option (List Tok) := parseGo (cs.length + 1) none [] cs
 
 def inCls (neg : Bool) (rs : List (Char × Char)) (c : Char) : Bool :=
   let hit := rs.any (fun (a, b) => a ≤ c && c ≤ b)
